@@ -453,8 +453,5 @@ pub fn check_c16(tier: &str, seed: u64) -> i32 {
         }
         return 1;
     }
-    if !m.inconclusive.is_empty() {
-        return 2;
-    }
-    0
+    crate::driver::exit_code_for_inconclusive(&m)
 }
